@@ -77,6 +77,11 @@ DecodingTotal   == ValidProduct(slots) => \A f \in DOMAIN DecodedProduct(slots) 
 \* composition is injective on valid slots: two different slot records never spell the same id
 Injective       == \A t \in AllSlots : ProductId(t) = ProductId(slots) /\ ValidProduct(slots) => t = slots
 NearMissInvalid == slots \in NearMisses => ~ValidProduct(slots)
+\* the alphabet of the grammar: ASCII capitals, ASCII digits and the three separators -- every valid id is spelled with it, so a string
+\* with ANY other character (a digit of another script, a lower-case or fullwidth letter) is outside the language whatever its shape
+Alphabet == {"A", "B", "C", "D", "E", "F", "G", "H", "I", "J", "K", "L", "M", "N", "O", "P", "Q", "R", "S", "T", "U", "V", "W", "X", "Y", "Z",
+             "0", "1", "2", "3", "4", "5", "6", "7", "8", "9", "-", ".", "_"}
+OverAlphabet == ValidProduct(slots) => \A i \in 1..Len(ProductId(slots)) : SubSeq(ProductId(slots), i, i) \in Alphabet
 \* the group name is unique per (polarisation, scan number); a scan-less image differs from scan 0
 GroupNameInjective ==
     \A p1, p2 \in ToSet(Pols), s1, s2 \in Scans :
